@@ -15,7 +15,7 @@ PROPS = ["C%02d" % i for i in range(1, 21)]
 
 def variants():
     out = []
-    for d in sorted(glob.glob(os.path.join(VERIF, "refactors", "[RQTUWXY]*-*"))):
+    for d in sorted(glob.glob(os.path.join(VERIF, "refactors", "[RQTUWXYZ]*-*"))):
         m = json.load(open(os.path.join(d, "meta.json")))
         if m.get("exclude"):
             continue
